@@ -53,8 +53,12 @@ structure Row where
   /-- `tuple_key` of a Proposition; `none` = the `pending:<tx>:<ordinal>` placeholder of a shell
   (unique by construction, so it never collides) -/
   tup : Option (Id × Nat × Id) := none
-  /-- mutable state (name, attributes, facets …) as one code -/
+  /-- mutable field state (`name`; an Assertion's lifecycle status) as one code -/
   val : Nat := 0
+  /-- one mutable attribute (`attributes.note`); 0 = absent -/
+  att : Nat := 0
+  /-- one mutable Facet member (`facets["MnemonicState"].salience`); 0 = absent -/
+  fac : Nat := 0
   /-- immutable epistemic payload of an Assertion / Evidence record as one code -/
   pay : Nat := 0
   deriving DecidableEq, Repr, Inhabited
@@ -277,6 +281,28 @@ inductive Ref where
   | id (i : Id)
   deriving DecidableEq, Repr
 
+/-- the action families of `UPDATE` (`kml/update.rs apply_action`) on the modelled columns -/
+inductive Act where
+  /-- `SET FIELDS {name: …}` -/
+  | setName (v : Nat)
+  /-- `SET ATTRIBUTES {note: …}` -/
+  | setAttr (v : Nat)
+  /-- `UNSET ATTRIBUTES {note}` -/
+  | unsetAttr
+  /-- `SET FACET "MnemonicState" {salience: …}` -/
+  | setFacet (v : Nat)
+  /-- `UNSET FACET "MnemonicState" {salience}` -/
+  | unsetFacet
+  deriving DecidableEq, Repr
+
+def applyAct (a : Act) (r : Row) : Row :=
+  match a with
+  | .setName v => { r with val := v }
+  | .setAttr v => { r with att := v }
+  | .unsetAttr => { r with att := 0 }
+  | .setFacet v => { r with fac := v }
+  | .unsetFacet => { r with fac := 0 }
+
 inductive Clause where
   /-- `CREATE CONCEPT ?h { TYPE ty … key … }`; `bad`: refused by schema validation while planning -/
   | createConcept (h ty key val : Nat) (bad : Bool)
@@ -286,8 +312,8 @@ inductive Clause where
   | ensure (h : Option Nat) (s : Ref) (p : Nat) (o : Ref) (expect : Option Nat) (bad : Bool)
   /-- `CREATE EVIDENCE / ASSERTION / ACTIVITY ?h {…}` with references to other handles / ids -/
   | createRec (k : Kind) (h : Nat) (pay : Nat) (refs : List Ref) (bad : Bool)
-  /-- `UPDATE target [EXPECT VERSION] SET …` (no selection block) -/
-  | update (t : Ref) (val : Nat) (expect : Option Nat) (bad : Bool)
+  /-- `UPDATE target [EXPECT VERSION] <actions>` (no selection block): the actions in source order -/
+  | update (t : Ref) (acts : List Act) (expect : Option Nat) (bad : Bool)
   /-- `ARCHIVE / TOMBSTONE target [EXPECT STATE]` -/
   | setState (t : Ref) (to : St) (expect : Option St)
   /-- `RETRACT ASSERTION target [EXPECT STATE status]`; an Assertion's lifecycle status is its `val`
@@ -366,6 +392,18 @@ def pAssign (id : Id) (val : Option Nat) (s : Store) (tx : Tx) : PS :=
       | some v =>
           if x.row.val = v then .ok s tx1
           else .ok s (markChanged tx1 id { x with row := { x.row with val := v } } .update)
+
+/-- one `UPDATE` action on the staged row: it counts as a change exactly when it alters the row as
+it stands now (two actions of one UPDATE that cancel out still make the element changed) -/
+def pAct (id : Id) (a : Act) (s : Store) (tx : Tx) : PS :=
+  match load s tx id with
+  | .error e => .fail s tx e
+  | .ok (tx1, x) =>
+      if applyAct a x.row = x.row then .ok s tx1
+      else .ok s (markChanged tx1 id { x with row := applyAct a x.row } .update)
+
+/-- the actions of one UPDATE, in order -/
+def pActs (id : Id) (acts : List Act) (p : PS) : PS := acts.foldl (fun p a => p.andThen (pAct id a)) p
 
 /-- `ARCHIVE` / `TOMBSTONE` of one target (`clauses::remove`) -/
 def pSetState (id : Id) (to : St) (expect : Option St) (s : Store) (tx : Tx) : PS :=
@@ -451,12 +489,12 @@ def applyClause (c : Clause) (s : Store) (tx : Tx) : PS :=
           match resolveAll tx refs with
           | .error e => .fail s tx e
           | .ok _ => (pGuard bad .invalid s tx).andThen (pStageNew id { pay := pay })
-  | .update t val expect bad =>
+  | .update t acts expect bad =>
       match resolve tx t with
       | .error e => .fail s tx e
       | .ok id =>
           -- `targets.authorized` loads the element first, then the guard, then the actions
-          (((pLoad id s tx).andThen (pExpect id expect)).andThen (pGuard bad .invalid)).andThen (pAssign id (some val))
+          pActs id acts (((pLoad id s tx).andThen (pExpect id expect)).andThen (pGuard bad .invalid))
   | .setState t to expect =>
       match resolve tx t with
       | .error e => .fail s tx e
